@@ -5,7 +5,9 @@ import (
 	"strconv"
 	"strings"
 
+	"kvqlverif/gen"
 	"kvqlverif/refstore"
+	"kvqlverif/rt"
 )
 
 func sortStrings(s []string) { sort.Strings(s) }
@@ -66,3 +68,32 @@ func rowsFromAny(v any) [][]string {
 }
 
 func sortInts(s []int) { sort.Ints(s) }
+
+// highByteCase: composite keys "<table>\xff<id>" - a store and a predicate whose prefix (or
+// range bound) literal ends in the highest byte value, which has no successor ("prefix + 1"
+// has to carry); nil pred = the caller's own generator.
+func highByteCase(r *rt.Rand) ([]refstore.Pair, *gen.Node) {
+	var ps []refstore.Pair
+	vals := []string{"1", "2", "x", "q", "10"}
+	for _, k := range []string{"k", "t1", "t1\xfe", "t1\xff", "t1\xff1", "t1\xff2", "t1\xff\xff", "t1\xffz", "t10", "t2\xffa", "t2\xffb", "\xff", "\xff\xff1", "\xffz", "z"} {
+		if r.Chance(4, 5) {
+			ps = append(ps, refstore.Pair{K: k, V: vals[r.Intn(len(vals))]})
+		}
+	}
+	K := gen.Key
+	lit := []string{"t1\xff", "t1\xff", "\xff", "t2\xff", "t1\xff\xff", "\xff\xff"}[r.Intn(6)]
+	var pred *gen.Node
+	switch r.Intn(5) {
+	case 0:
+		pred = gen.Bin("^=", K(), gen.Str(lit))
+	case 1:
+		pred = gen.And(gen.Bin("^=", K(), gen.Str(lit)), gen.Bin("!=", gen.Value(), gen.Str("q")))
+	case 2:
+		pred = gen.Or(gen.Bin("^=", K(), gen.Str(lit)), gen.Bin("=", K(), gen.Str("k")))
+	case 3:
+		pred = gen.And(gen.Bin("^=", K(), gen.Str(lit)), gen.Bin(">=", K(), gen.Str(lit+"1")))
+	default:
+		pred = gen.Bin(">=", K(), gen.Str(lit))
+	}
+	return refstore.New(ps).Pairs(), pred
+}
